@@ -433,7 +433,19 @@ fn hash_case(name: &str, segs: &[(usize, Term)], chunk: Chunk) -> u64 {
 }
 
 /// Runs one scenario: a fresh FrameBuffer, the stream served according to `segs`.
+/// Wall-clock budget of the whole driver: code under test that went wrong can make single calls
+/// arbitrarily slow (e.g. reserving gigabytes for a bogus frame size); scenarios past the
+/// deadline are skipped (and counted) so that what did run can still be judged.
+static DEADLINE: std::sync::OnceLock<std::time::Instant> = std::sync::OnceLock::new();
+static SKIPPED: std::sync::atomic::AtomicU64 = std::sync::atomic::AtomicU64::new(0);
+
 fn run(out: &mut Shards, st: &mut Stats, kind: &str, s: &Stream, segs: &[(usize, Term)], chunk: Chunk, cseed: u64) {
+    if let Some(d) = DEADLINE.get() {
+        if std::time::Instant::now() > *d {
+            SKIPPED.fetch_add(1, std::sync::atomic::Ordering::Relaxed);
+            return;
+        }
+    }
     let desc = json!({
         "kind": kind, "stream": s.name, "kinds": format!("{:?}", s.kinds), "sizes": s.sizes, "bad": s.bad, "h": s.fps,
         "plan": plan_json(segs), "chunk": format!("{:?}", chunk), "cseed": cseed.to_string(),
@@ -681,6 +693,8 @@ fn main() {
     let shards = a.num("shards", 16) as usize;
     let seed = a.num("seed", 1);
     let thorough = a.str("tier", "quick") == "thorough";
+    let budget = a.num("budget", if thorough { 900 } else { 60 });
+    let _ = DEADLINE.set(std::time::Instant::now() + std::time::Duration::from_secs(budget));
     let mut rng = StdRng::seed_from_u64(seed ^ 0xC06);
     let mut out = Shards::create(Path::new(&dir), "c06", shards);
     let mut st = Stats::default();
@@ -854,6 +868,7 @@ fn main() {
         "{}",
         json!({
             "scenarios": scen, "events": events, "evaluations": st.evaluations,
+            "skipped_after_time_budget": SKIPPED.load(std::sync::atomic::Ordering::Relaxed),
             "distinct_nontrivial": st.distinct.len(), "samples": st.samples,
             "calls": st.calls, "frames_handed_on": st.frames, "reads": st.reads,
             "min_buf_offered": st.min_buf, "max_buf_offered": st.max_buf, "max_frame_bytes": st.max_frame,
